@@ -189,10 +189,95 @@ fn leak_probe(rec: &mut Rec, i: usize, seed: u64) {
     rec.extra = json!({"family": "iso", "iterations": n, "iterations_compared_with_a_pristine_replay": compared});
 }
 
+pub const N_SYNC_PROBES: usize = 8;
+
+/// The pristine-replay probe over blocking programs with yields: a thread yields while it is the only one that can run
+/// (the others are blocked on a lock it holds / on a message it has not sent yet, or have terminated), is picked again,
+/// then makes another thread runnable and goes on to an unrelated operation; an earlier race gives the model several
+/// iterations. Whether the yielded thread keeps its yielded status is decided by comparing thread ids built from
+/// per-execution identifiers, so anything of the first iteration's identity that survives shows here.
+fn sync_probe_prog(i: usize, seed: u64) -> sync::SProg {
+    use sync::SOp::*;
+    let sp = |threads: Vec<Vec<sync::SOp>>| sync::SProg { threads, loom_arc: false, forget_rx: false, rx_owner: 0 };
+    match i {
+        0 => sp(vec![vec![Lock(0), AStore(1, 1), Yield, Yield, Unlock(0), AStore(0, 1), Join(1)], vec![ALoad(1), Lock(0), Unlock(0)]]),
+        1 => sp(vec![vec![AStore(1, 1), Yield, Send(1), AStore(0, 1), Join(1)], vec![ALoad(1), Recv, ALoad(0)]]).with_rx_owner(1),
+        2 => sp(vec![vec![Lock(0), AStore(1, 1), Yield, Unlock(0), ALoad(0), Join(1), Join(2)], vec![ALoad(1), Lock(0), Unlock(0)], vec![AStore(0, 1), Lock(0), Unlock(0)]]),
+        3 => sp(vec![vec![Write, AStore(1, 1), Yield, Yield, RwUnlock, AStore(0, 1), Join(1)], vec![ALoad(1), Read, RwUnlock, ALoad(0)]]),
+        _ => {
+            // random blocking programs with yields sprinkled in
+            let mut rng = Rng::new(seed, 0x150 + i as u64);
+            loop {
+                let mut p = crate::fam_sync::prog_at("C07", 0, seed ^ 0x77, 40_000_000 + i * 97 + rng.below(1000));
+                let mut n = 0;
+                for t in 0..p.threads.len() {
+                    let mut k = 0;
+                    while k < p.threads[t].len() {
+                        if rng.chance(1, 3) && n < 3 {
+                            p.threads[t].insert(k, Yield);
+                            n += 1;
+                            k += 1;
+                        }
+                        k += 1;
+                    }
+                }
+                if n > 0 {
+                    return p;
+                }
+            }
+        }
+    }
+}
+
+fn sync_leak_probe(rec: &mut Rec, i: usize, seed: u64) {
+    let p = sync_probe_prog(i, seed);
+    rec.prog = format!("[pristine replay] {}", p.s());
+    rec.hash = fnv(&rec.prog);
+    rec.extra = json!({"family": "iso"});
+    let cfg = sync::SCfg { iter_cap: 20_000, max_branches: 2_000, keep_paths: true, ..Default::default() };
+    let full = sync::run_loom(&p, &cfg);
+    rec.runs += 1;
+    rec.iters += full.iters as u64;
+    if full.panic.is_some() {
+        // a program that fails (deadlock, ...) has no complete sequence to compare
+        rec.status = "ok".into();
+        rec.extra = json!({"family": "iso", "skipped": format!("the probe program fails under loom: {}", full.panic.clone().unwrap_or_default().lines().next().unwrap_or(""))});
+        return;
+    }
+    let n = full.seq.len();
+    let dir = verif_root().join("work");
+    let _ = std::fs::create_dir_all(&dir);
+    let file = dir.join(format!("iso-sckpt-{}-{}-{}.json", std::process::id(), seed, i)).to_string_lossy().to_string();
+    let step = (n / 30).max(1);
+    let mut compared = 0;
+    for k in (2..=n).step_by(step) {
+        let _ = std::fs::remove_file(&file);
+        let _ = sync::run_loom(&p, &sync::SCfg { checkpoint_file: Some(file.clone()), checkpoint_interval: Some(1), max_permutations: Some(k), ..cfg.clone() });
+        let rest = sync::run_loom(&p, &sync::SCfg { checkpoint_file: Some(file.clone()), checkpoint_interval: Some(1), max_permutations: Some(4), ..cfg.clone() });
+        rec.runs += 2;
+        rec.iters += rest.iters as u64;
+        compared += 1;
+        let m = rest.seq.len().min(n - (k - 1));
+        if m == 0 || rest.seq[..m] != full.seq[k - 1..k - 1 + m] {
+            let j = (0..m).find(|&j| rest.seq[j] != full.seq[k - 1 + j]).unwrap_or(0);
+            rec.v("iteration_state_leaks", "", format!("iteration {} of the uninterrupted run (of {}) and the same decision path explored from pristine state (resumed from its checkpoint) executed different schedules / returned different values (record digests {:?} vs {:?}): something survived from the earlier iterations", k + j, n, full.seq.get(k - 1 + j), rest.seq.get(j)));
+            rec.prog_json = serde_json::to_value(&p).unwrap();
+            break;
+        }
+    }
+    let _ = std::fs::remove_file(&file);
+    rec.nontrivial = n >= 2;
+    rec.extra = json!({"family": "iso", "iterations": n, "iterations_compared_with_a_pristine_replay": compared});
+}
+
 pub fn work(tier: u8, seed: u64, idx: usize) -> Rec {
     let mut rec = Rec::new(idx);
     if idx < 8 {
         leak_probe(&mut rec, idx, seed);
+        return rec;
+    }
+    if idx < 8 + N_SYNC_PROBES {
+        sync_leak_probe(&mut rec, idx - 8, seed);
         return rec;
     }
     let (p, s) = progs(seed, idx);
